@@ -85,10 +85,11 @@ Record spec := mkSpec {
   sp_stream : stream;                      (* everything appended so far *)
   sp_open : option (Z * Z);                (* a claim not yet committed / aborted: (length, position returned) *)
   sp_acc : list (list Z * Z);              (* accepted messages with the position their offer returned, oldest first *)
-  sp_del : list (list Z)                   (* messages the reassembled-message handler received, oldest first *)
+  sp_del : list (list Z);                  (* messages the reassembled-message handler received, oldest first *)
+  sp_ok : bool                             (* every position returned so far was the position just after the message *)
 }.
 
-Definition spec0 : spec := mkSpec [] None [] [].
+Definition spec0 : spec := mkSpec [] None [] [] true.
 
 (* what is visible of one operation *)
 Inductive event :=
@@ -107,27 +108,31 @@ Definition pad_to_term_end (g : sgeom) (s : stream) : stream :=
 Definition on_result (g : sgeom) (sp : spec) (r : outcome Z) (accept : Z -> spec) : spec :=
   match r with
   | Ok p => accept p
-  | Err AdminAction => mkSpec (sp_stream sp ++ pad_to_term_end g (sp_stream sp)) (sp_open sp) (sp_acc sp) (sp_del sp)
+  | Err AdminAction => mkSpec (sp_stream sp ++ pad_to_term_end g (sp_stream sp)) (sp_open sp) (sp_acc sp) (sp_del sp) (sp_ok sp)
   | _ => sp                                (* every other result: nothing happens, now or later *)
   end.
 
 Definition spec_step (g : sgeom) (sp : spec) (e : event) : spec :=
   match e with
   | EvOffer m r =>
-      on_result g sp r (fun p => mkSpec (sp_stream sp ++ msg_items (sg_mpl g) m) (sp_open sp) (sp_acc sp ++ [(m, p)]) (sp_del sp))
+      on_result g sp r (fun p =>
+        let s' := sp_stream sp ++ msg_items (sg_mpl g) m in
+        mkSpec s' (sp_open sp) (sp_acc sp ++ [(m, p)]) (sp_del sp) (sp_ok sp && (p =? pos_after (sg_p0 g) s')))
   | EvClaim len r =>
-      on_result g sp r (fun p => mkSpec (sp_stream sp) (Some (len, p)) (sp_acc sp) (sp_del sp))
+      on_result g sp r (fun p =>
+        mkSpec (sp_stream sp) (Some (len, p)) (sp_acc sp) (sp_del sp)
+               (sp_ok sp && (p =? pos_after (sg_p0 g) (sp_stream sp) + align (32 + len) 32)))
   | EvCommit body =>
       match sp_open sp with
-      | Some (len, p) => mkSpec (sp_stream sp ++ [Frag F_UNFRAG body]) None (sp_acc sp ++ [(body, p)]) (sp_del sp)
+      | Some (len, p) => mkSpec (sp_stream sp ++ [Frag F_UNFRAG body]) None (sp_acc sp ++ [(body, p)]) (sp_del sp) (sp_ok sp)
       | None => sp
       end
   | EvAbort =>
       match sp_open sp with
-      | Some (len, p) => mkSpec (sp_stream sp ++ [Pad (align (32 + len) 32)]) None (sp_acc sp) (sp_del sp)
+      | Some (len, p) => mkSpec (sp_stream sp ++ [Pad (align (32 + len) 32)]) None (sp_acc sp) (sp_del sp) (sp_ok sp)
       | None => sp
       end
-  | EvPoll msgs => mkSpec (sp_stream sp) (sp_open sp) (sp_acc sp) (sp_del sp ++ msgs)
+  | EvPoll msgs => mkSpec (sp_stream sp) (sp_open sp) (sp_acc sp) (sp_del sp ++ msgs) (sp_ok sp)
   | EvEnv => sp
   end.
 
